@@ -280,6 +280,9 @@ pub proof fn axiom_cos_add(a: real, b: real)
 pub proof fn axiom_sin_add(a: real, b: real)
     ensures sin_r(a + b) == sin_r(a) * cos_r(b) + cos_r(a) * sin_r(b) {}
 #[verifier::external_body]
+pub proof fn axiom_floor(x: real)
+    ensures floor_r(x) <= x, x < floor_r(x) + 1real {}
+#[verifier::external_body]
 pub proof fn axiom_trig_zero()
     ensures sin_r(0real) == 0real, cos_r(0real) == 1real {}
 #[verifier::external_body]
